@@ -119,7 +119,7 @@ def gen(ctx):
             ctx.gen_fail("C03", "MaxStateAge: %s" % e)
     else:
         ctx.gen_fail("C03", "`const MaxStateAge = <duration>` not found in %s" % GSET)
-    if not re.search(r"len\(\s*v\s*\)\s*>=\s*MaxNodesPerGuardian", gset):
+    if not re.search(r"len\(\s*\w+\s*\)\s*>=\s*MaxNodesPerGuardian", gset):
         ctx.gen_fail("C03", "SetHeartbeat no longer tests `len(v) >= MaxNodesPerGuardian` in %s" % GSET)
     # ---- call sites in p2p.Run (not executable under the stub): textual facts
     site = {}
